@@ -1001,6 +1001,11 @@ type gridFacts struct {
 	// every column of the grid has a width of its own: from its col / colgroup element, from a cell with colspan 1
 	// originating in it, or (percentages only) from a column-spanning cell covering it
 	allColumnsDetermined bool
+	// some column box or cell has a percentage width
+	anyPercentage bool
+	// a colspan>1 cell all of whose columns have a px width of their own (col / colgroup / colspan-1 cell): no
+	// unconstrained column can take the part of its content that exceeds its columns
+	colspanOverPxColumnsOnly bool
 }
 
 func clampSpan(v, lo, hi int) int {
@@ -1041,9 +1046,16 @@ func structGrid(gs []sGroup, colW []string) gridFacts {
 	f := gridFacts{}
 	origin := map[int]bool{}
 	determined := map[int]bool{}
+	pxCol := map[int]bool{}
+	var spanning [][2]int
 	for j, w := range colW {
 		if w != "" {
 			determined[j] = true
+			if strings.HasSuffix(w, "%") {
+				f.anyPercentage = true
+			} else {
+				pxCol[j] = true
+			}
 		}
 	}
 	ordered := orderGroups(gs)
@@ -1081,6 +1093,14 @@ func structGrid(gs []sGroup, colW []string) gridFacts {
 				}
 				placed = append(placed, placedCell{x, y, w, h})
 				origin[x] = true
+				if w > 1 {
+					spanning = append(spanning, [2]int{x, w})
+				}
+				if strings.HasSuffix(c.width, "%") {
+					f.anyPercentage = true
+				} else if c.width != "" && w == 1 {
+					pxCol[x] = true
+				}
 				if c.width != "" {
 					if w == 1 {
 						determined[x] = true
@@ -1097,6 +1117,17 @@ func structGrid(gs []sGroup, colW []string) gridFacts {
 			}
 		}
 		f.groups = append(f.groups, placed)
+	}
+	for _, sp := range spanning {
+		all := true
+		for xx := sp[0]; xx < sp[0]+sp[1] && xx < f.width; xx++ {
+			if !pxCol[xx] {
+				all = false
+			}
+		}
+		if all {
+			f.colspanOverPxColumnsOnly = true
+		}
 	}
 	f.norig = len(origin)
 	f.columnWithoutOrigin = f.norig < f.width
@@ -1527,6 +1558,15 @@ func layoutCases(src string, baseTags []string, kind string, st tStruct, w *vlib
 			// auto layout of a table with a specified width all of whose columns are constrained (col / colgroup / cell width)
 			// or have a percentage: no column can take the excess width
 			tags = append(tags, "struct:auto-layout+specified-width+all-columns-constrained-or-percentage")
+		}
+		if !fixedUsed && facts.anyPercentage {
+			tags = append(tags, "struct:auto-layout+percentage-width")
+		}
+		if !fixedUsed && facts.colspanOverPxColumnsOnly {
+			tags = append(tags, "struct:auto-layout+colspan-over-px-columns-only")
+		}
+		if fixedUsed {
+			tags = append(tags, "struct:fixed-layout")
 		}
 		sort.Strings(tags)
 	}
